@@ -241,10 +241,42 @@ func plantsFor(in *scInput) []string {
 	return out
 }
 
-func genTree(r *Rng, D int, big bool, plants []string) *scNode {
+// long references (2-6 KB) whose only part an exclusion expression can match is at the very end:
+// the expressions run on the whole URL.String(), whatever its length
+func longPlants(r *Rng, in *scInput) []string {
+	if len(in.RE) == 0 && len(in.RF) == 0 && len(in.ES) == 0 {
+		return nil
+	}
+	tails := []string{".pdf", "/private/x.png", "/logout", "/2024", "/a.png", "?flag", "/x.css", "/doc.pdf?x=1", "/ok.html"}
+	var out []string
+	for j := 0; j < 3; j++ {
+		n := 2040 + r.Intn(4000)
+		if r.Chance(30) {
+			n = 2030 + r.Intn(30) // around the 2 KiB mark
+		}
+		fill := strings.Repeat(pick(r, []string{"a", "seg/", "x1-"}), n)[:n]
+		if r.Bool() {
+			out = append(out, "/long/"+fill+pick(r, tails))
+		} else {
+			out = append(out, "/long?blob="+fill+"&next="+strings.TrimLeft(pick(r, tails), "/?."))
+		}
+	}
+	return out
+}
+
+func genTree(r *Rng, D int, big bool, plants, longs []string) *scNode {
 	uniq := 0
 	var used []string
+	nlong := 0
 	leaf := func() *scNode {
+		if len(longs) > 0 && nlong < 2 && r.Chance(6) {
+			nlong++
+			u := longs[r.Intn(len(longs))]
+			if D == 0 {
+				u = "https://www.example.com" + u
+			}
+			return &scNode{U: u}
+		}
 		if len(plants) > 0 && r.Chance(22) {
 			u := plants[r.Intn(len(plants))]
 			if D == 0 && strings.HasPrefix(u, "/") {
@@ -381,7 +413,7 @@ func genScope(r *Rng, i int, tier string) string {
 	default:
 		D = 3
 	}
-	in.T = genTree(r, D, r.Chance(25), plantsFor(&in))
+	in.T = genTree(r, D, r.Chance(25), plantsFor(&in), longPlants(r, &in))
 	if D == 0 && r.Chance(65) {
 		in.SP = true // the way the sources deliver a seed
 	}
